@@ -177,7 +177,8 @@ class chunks_match_rank1:
         return True
 
     def ensures(result, a, b):
-        return {"equal-block-sizes": S.Iff(result, S.seq_equal(S.item(a, 0), S.item(b, 0)))}
+        e0 = S.seq_equal(S.item(a, 0), S.item(b, 0))
+        return {"match-implies-equal": S.Implies(result, e0), "equal-implies-match": S.Implies(e0, result)}
 
     def domain(tier, rng):
         from contracts.slicing import chunkings
@@ -196,8 +197,11 @@ class chunks_match_rank2:
         return True
 
     def ensures(result, a, b):
-        return {"equal-block-sizes": S.Iff(result, S.And(S.seq_equal(S.item(a, 0), S.item(b, 0)),
-                                                         S.seq_equal(S.item(a, 1), S.item(b, 1))))}
+        e0 = S.seq_equal(S.item(a, 0), S.item(b, 0))
+        e1 = S.seq_equal(S.item(a, 1), S.item(b, 1))
+        return {"match-implies-equal-axis0": S.Implies(result, e0),
+                "match-implies-equal-axis1": S.Implies(result, e1),
+                "equal-implies-match": S.Implies(S.And(e0, e1), result)}
 
     def domain(tier, rng):
         from contracts.slicing import chunkings
